@@ -75,9 +75,16 @@ TracePrioEnd == IsEvent("PrioEnd") /\ PrioEndG(L2(IF BgResumes(PfPrio) THEN BgLo
 \* error: the read fails without a request of its own. No C15 formula speaks about reads during a suspended
 \* background fetch (it is a matter of C06); the trace spec accepts it as a failed read that changes nothing.
 TraceReadCancelled ==
-    /\ IsEvent("Read") /\ ~Ev.ok /\ bg = "suspended" /\ lst[Ev.f] # 2 /\ Rq = {}
+    /\ IsEvent("Read") /\ ~Ev.ok /\ bg \in {"stalled", "suspended"} /\ lst[Ev.f] # 2 /\ Rq = {}
     /\ UNCHANGED <<sc, pc, runner, pf, pfres, psize, pinfo, waiter, wc, bc, brunner, bg, bgres, prio, fetched, lst, reg>>
     /\ last' = [act |-> "Read", f |-> Ev.f, ok |-> FALSE, req |-> {}]
+    /\ ObsOK
+\* the same for a read of a single chunk (seen in a final regression run: ReadPart failing with "context canceled",
+\* no request of its own, while a background fetch was stalled/suspended by the starting prefetch)
+TraceReadPartCancelled ==
+    /\ IsEvent("ReadPart") /\ ~Ev.ok /\ bg \in {"stalled", "suspended"} /\ lst[Ev.f] # 2 /\ Rq = {}
+    /\ UNCHANGED <<sc, pc, runner, pf, pfres, psize, pinfo, waiter, wc, bc, brunner, bg, bgres, prio, fetched, lst, reg>>
+    /\ last' = [act |-> "ReadPart", f |-> Ev.f, ok |-> FALSE, req |-> {}]
     /\ ObsOK
 TraceRead == IsEvent("Read") /\ ReadG(Ev.f, Ev.ok, Got, L2(IF Ev.ok THEN MarkFull(lst, {Ev.f}) ELSE lst), Rq) /\ ObsOK
 TraceReadPart == IsEvent("ReadPart") /\ ReadPartG(Ev.f, Ev.k, Ev.ok, Got, L2(PartState(lst, Ev.f)), Rq) /\ ObsOK
@@ -113,7 +120,7 @@ TraceNext ==
     \/ TraceReset \/ TracePrefetchCall \/ TraceRange \/ TraceAsyncThreshold \/ TraceBlobCacheStall \/ TraceBlobCache
     \/ TraceReaderCache \/ TracePrefetchEnd \/ TracePrefetchReturn \/ TraceWaitCall \/ TraceWaitReturn \/ TraceWaitTimeout
     \/ TraceBgCall \/ TraceBgStall \/ TraceBgFinish \/ TraceBgReturn \/ TracePrioBegin \/ TracePrioEnd \/ TraceRead
-    \/ TraceRegistryOff \/ TraceRegistryOn \/ TraceReadCancelled \/ TraceReadPart
+    \/ TraceRegistryOff \/ TraceRegistryOn \/ TraceReadCancelled \/ TraceReadPartCancelled \/ TraceReadPart
 
 TraceSpec == TraceInit /\ [][TraceNext]_tvars
 
